@@ -46,10 +46,10 @@ theorem fromXyz_eq (v : α × α × α) :
 /-- a list of any other length is rejected by the `assert` -/
 theorem fromXyz_assert (xs : List α) (h : xs.length ≠ 3) :
     Src.Xyz.fromXyz R xs = .error "ERR:Other:AssertionError" := by
-  have h' : ¬ (((xs.length : Nat) : Int) = (3 : Int)) := by
-    intro e; exact h (by exact_mod_cast e)
-  simp only [Src.Xyz.fromXyz, Int.ofNat_eq_natCast, beq_iff_eq]
-  rw [if_neg h']
+  simp only [Src.Xyz.fromXyz, Int.ofNat_eq_natCast]
+  split
+  · next hc => exfalso; simp at hc; omega
+  · rfl
 
 end generic
 
